@@ -8,6 +8,7 @@ import (
 	"owverif.local/verif/checks/c10"
 	"owverif.local/verif/checks/c11"
 	"owverif.local/verif/checks/c12"
+	"owverif.local/verif/checks/c13"
 	"owverif.local/verif/checks/c15"
 	"owverif.local/verif/checks/c16"
 	"owverif.local/verif/checks/c19"
@@ -19,6 +20,7 @@ var registry = map[string]func() *vf.Check{
 	"C10": c10.Spec,
 	"C11": c11.Spec,
 	"C12": c12.Spec,
+	"C13": c13.Spec,
 	"C15": c15.Spec,
 	"C16": c16.Spec,
 	"C19": c19.Spec,
